@@ -132,8 +132,10 @@ func (g *vStoreWorld) step(a map[string]interface{}) (out map[string]interface{}
 		}
 	}()
 	switch op {
-	case "save":
-		g.ver[u]++
+	case "save", "resave":
+		if op == "save" || g.ver[u] == 0 {
+			g.ver[u]++
+		} // resave: byte for byte what the previous save of u wrote, whatever became of the row since
 		v := g.ver[u]
 		vMust(st.SaveUserProfile(u, g.profile(u, v)))
 		out["wrote"] = v
